@@ -731,6 +731,19 @@ def walk(n, into_closures=True):
         stack.extend(reversed(ch))
 
 
+def all_lits(n):
+    """every literal value anywhere below n — in expressions AND in patterns (`matches!(c, '\\r' | '\\0'..='\\u{8}')`)"""
+    stack = [n]
+    while stack:
+        x = stack.pop()
+        if isinstance(x, dict):
+            if x.get("k") == "Lit" and isinstance(x.get("lit"), dict):
+                yield x["lit"].get("v")
+            stack.extend(v for v in x.values() if isinstance(v, (dict, list)))
+        elif isinstance(x, list):
+            stack.extend(v for v in x if isinstance(v, (dict, list)))
+
+
 def walk_fn(fn, into_closures=True):
     if fn.body is None:
         return
